@@ -59,7 +59,12 @@ def twin_graphs(rng):
     w = (np.arange(n * n, dtype="float64").reshape(n, n) % 17) / 8.0
     w2 = w.copy()
     r = rng.random()
-    if r < 0.35:
+    if r < 0.2:
+        # equal under ==, different bits: zeros of the other sign
+        w[n // 2, :] = 0.0
+        w2 = w.copy()
+        w2[n // 2, ::2] = -0.0
+    elif r < 0.35:
         w2[n // 2, n // 2] += 1.0
     elif r < 0.7:
         w2[n // 2, n // 2] += 1e-10
